@@ -15,6 +15,7 @@ package rsync
 // No wall-clock value is ever part of the diffed output.
 
 import (
+	"runtime"
 	"hash/fnv"
 	"fmt"
 	"strings"
@@ -52,6 +53,17 @@ type c34Pending struct {
 	done chan string
 }
 
+// c34Stuck: a blocked acquirer has already been seen not to proceed; later waits are short (the
+// failure is recorded, the run only has to finish)
+var c34Stuck atomic.Bool
+
+func c34Wait(d time.Duration) time.Duration {
+	if c34Stuck.Load() {
+		return 200 * time.Millisecond
+	}
+	return d
+}
+
 func c34SeqA(rep *vfReport, r *vfRng, n int) (ops, out []string) {
 	cas := NewCheckAndSet()
 	m := NewMultiRSW()
@@ -86,7 +98,8 @@ func c34SeqA(rep *vfReport, r *vfRng, n int) (ops, out []string) {
 					mReaders++
 				}
 			}
-		case <-time.After(20 * time.Second):
+		case <-time.After(c34Wait(20 * time.Second)):
+			c34Stuck.Store(true)
 			rep.Fail("mrsw-blocked-acquirer-never-proceeds", "a blocking acquirer did not return within 20 s after the holders released", replay())
 		}
 		pend = nil
@@ -341,12 +354,66 @@ func c34Directed(rep *vfReport, r *vfRng) (ops, out []string) {
 		case <-done:
 			admitted++
 			emit("m.bwb "+vfHex("blk"), "ok")
-		case <-time.After(20 * time.Second):
+		case <-time.After(c34Wait(20 * time.Second)):
+			c34Stuck.Store(true)
 			rep.Fail("mrsw-blocked-acquirer-never-proceeds", "a parked blocking writer did not return within 20 s after the holders released", replay())
 			return
 		}
 		probeBlocked(nW-admitted, "a second blocking writer was admitted while the first one held the write lock")
 		emit("m.ew", c34Call(func() error { m.EndWrite(); return nil }))
+	}
+	emit("m.state", fmt.Sprintf("%s %d", vfHex(m.owner), m.numReaders))
+	return
+}
+
+// c34TwoParkedReaders: a writer holds; several BLOCKING readers park; the writer leaves: ALL of
+// them must be admitted (the second while the first still holds its read lock). Waiting on a
+// channel with a long timeout makes "not admitted" a lower-bound probe, safe on a slow machine.
+func c34TwoParkedReaders(rep *vfReport, r *vfRng) (ops, out []string) {
+	m := NewMultiRSW()
+	ops = []string{"reset"}
+	out = []string{"ok"}
+	emit := func(op, res string) {
+		ops = append(ops, op)
+		out = append(out, res)
+	}
+	replay := func() map[string]interface{} { return map[string]interface{}{"ops": append([]string(nil), ops...)} }
+	emit("m.bw "+vfHex("w"), c34Call(func() error { return m.BeginWrite("w") }))
+	nR := 2 + r.Intn(2)
+	done := make(chan int, nR)
+	for k := 0; k < nR; k++ {
+		go func(k int) { m.BeginReadBlocking(); done <- k }(k)
+	}
+	time.Sleep(time.Duration(500+r.Intn(1500)) * time.Microsecond) // let them park
+	select {
+	case <-done:
+		emit("m.brb", "ok")
+		rep.Fail("mrsw-blocking-reader-admitted-with-writer", "BeginReadBlocking returned while a writer held the lock", replay())
+		return
+	default:
+	}
+	for k := 0; k < nR; k++ {
+		emit("m.brb", "blocked")
+	}
+	emit("m.ew", c34Call(func() error { m.EndWrite(); return nil }))
+	admitted := 0
+	for admitted < nR {
+		select {
+		case <-done:
+			admitted++
+			emit("m.brb", "ok") // it keeps its read lock while the others are awaited
+		case <-time.After(c34Wait(15 * time.Second)):
+			c34Stuck.Store(true)
+			rep.Fail("mrsw-blocked-acquirer-never-proceeds", fmt.Sprintf("a writer released the lock with %d blocking readers parked; %d of them were admitted, the others are still asleep 15 s later although no writer is active", nR, admitted), replay())
+			// free the sleepers so that no goroutine is leaked: a read/unread pair ends in a Broadcast
+			for i := 0; i < admitted; i++ {
+				m.EndRead()
+			}
+			return
+		}
+	}
+	for k := 0; k < nR; k++ {
+		emit("m.er", c34Call(func() error { m.EndRead(); return nil }))
 	}
 	emit("m.state", fmt.Sprintf("%s %d", vfHex(m.owner), m.numReaders))
 	return
@@ -365,6 +432,16 @@ func TestVerifC34(t *testing.T) {
 	}
 	r := vfNewRng(34)
 	var allOps, allImpl [][]string
+	// ---- several blocking readers parked behind a writer ----------------------------------
+	for i := 0; i < vfScale(20, 600); i++ {
+		ops, out := c34TwoParkedReaders(rep, r)
+		allOps = append(allOps, ops)
+		allImpl = append(allImpl, out)
+		rep.Case("R:"+c34Key(ops), true)
+		rep.Count("D:parked-reader-scenarios")
+	}
+
+	checkpoint()
 	nA := vfScale(300, 30000)
 	for i := 0; i < nA; i++ {
 		ops, out := c34SeqA(rep, r, 40+r.Intn(vfScale(161, 400)))
@@ -395,13 +472,87 @@ func TestVerifC34(t *testing.T) {
 		rep.Count("D:parked-writer-scenarios")
 	}
 
+	// ---- race: a reader slips in when one writer hands over to a parked blocking writer -----
+	// W1 holds the write lock, W2 is parked in BeginWriteBlocking. W1's EndWrite and a reader's
+	// BeginRead (retrying until it succeeds) leave a spin barrier together. Whoever wins, at the
+	// moment BeginWriteBlocking returns the reader count must be 0 (the guard owner == "" &&
+	// numReaders == 0 is re-checked as a whole on every wake-up).
+	{
+		rounds := vfScale(800, 150000)
+		bad, firstBad := 0, -1
+		for i := 0; i < rounds && bad < 3; i++ {
+			m := NewMultiRSW()
+			if err := m.BeginWrite("w1"); err != nil {
+				t.Fatalf("w1: %v", err)
+			}
+			w2 := make(chan int, 1)
+			go func() {
+				m.BeginWriteBlocking("w2")
+				m.mu.Lock()
+				n := m.numReaders
+				m.mu.Unlock()
+				w2 <- n
+			}()
+			for k := 0; k < 50+r.Intn(200); k++ { // give W2 a moment to park (either way is fine)
+				runtime.Gosched()
+			}
+			var go_ atomic.Int32
+			var release atomic.Int32
+			rd := make(chan struct{})
+			go func() {
+				defer close(rd)
+				for go_.Load() == 0 {
+					runtime.Gosched()
+				}
+				for m.BeginRead() != nil {
+					runtime.Gosched()
+				}
+				for release.Load() == 0 {
+					runtime.Gosched()
+				}
+				m.EndRead()
+			}()
+			go_.Store(1)
+			m.EndWrite()
+			var n int
+			select {
+			case n = <-w2: // W2 got in first, or wrongly got in with the reader inside
+			case <-time.After(2 * time.Millisecond):
+				// the reader got in first: W2 must wait for it; let the reader go
+				release.Store(1)
+				select {
+				case n = <-w2:
+				case <-time.After(20 * time.Second):
+					rep.Fail("mrsw-blocked-acquirer-never-proceeds", "a parked blocking writer did not return within 20 s after writer and reader had left", map[string]interface{}{"round": i})
+					bad = 3
+					continue
+				}
+			}
+			if n != 0 {
+				bad++
+				if firstBad < 0 {
+					firstBad = i
+				}
+			}
+			release.Store(1)
+			m.EndWrite() // W2's
+			<-rd
+		}
+		if firstBad >= 0 {
+			rep.Fail("mrsw-blocking-writer-admitted-with-holders", fmt.Sprintf("round %d: writer W1 holds, blocking writer W2 parked; W1.EndWrite raced with a BeginRead; when W2's BeginWriteBlocking returned the reader count was not 0 (%d such rounds): a writer and a reader hold the lock together", firstBad, bad),
+				map[string]interface{}{"round": firstBad, "scenario": "W1 := BeginWrite; go W2 := BeginWriteBlocking; barrier{ W1.EndWrite | reader: retry BeginRead until ok }; at W2's return numReaders must be 0"})
+		}
+		rep.Case("race:reader-at-writer-handover", true)
+		rep.CountN("race:reader-at-writer-handover-rounds", rounds)
+	}
+
 	// ---- race: Subscribe(i) against Signal(i) ------------------------------------------
 	// Two goroutines leave a spin barrier together, one subscribes to index i, the other
 	// signals index i. Whatever the order, once BOTH calls have returned the channel must be
 	// closed (Subscribe saw the index reached, or Signal found the subscriber). No timing
 	// assumption: the close happens inside one of the two calls.
 	{
-		rounds := vfScale(40000, 1500000)
+		rounds := vfScale(15000, 1500000)
 		rt := NewReadyTarget[uint64]()
 		lost := 0
 		firstLost := -1
@@ -415,6 +566,7 @@ func TestVerifC34(t *testing.T) {
 				defer wg.Done()
 				ready.Add(1)
 				for go_.Load() == 0 {
+					runtime.Gosched()
 				}
 				ch = rt.Subscribe(idx)
 			}()
@@ -422,10 +574,12 @@ func TestVerifC34(t *testing.T) {
 				defer wg.Done()
 				ready.Add(1)
 				for go_.Load() == 0 {
+					runtime.Gosched()
 				}
 				rt.Signal(idx)
 			}()
 			for ready.Load() < 2 {
+				runtime.Gosched()
 			}
 			go_.Store(1)
 			wg.Wait()
@@ -560,7 +714,8 @@ func TestVerifC34(t *testing.T) {
 				if m.numReaders != 0 || m.owner != "" {
 					rep.Fail("mrsw-count-wrong-after-all-released", fmt.Sprintf("numReaders=%d owner=%q", m.numReaders, m.owner), replay)
 				}
-			case <-time.After(60 * time.Second):
+			case <-time.After(c34Wait(60 * time.Second)):
+				c34Stuck.Store(true)
 				rep.Fail("mrsw-blocked-acquirer-never-proceeds", "goroutines using blocking acquires did not finish within 60 s", replay)
 			}
 			rep.CountN("B:mrsw-read-acquisitions", int(rAcq.Load()))
